@@ -157,9 +157,9 @@ Ltac rej_contra H :=
 Lemma cookie_ok_only_if e a id d :
   a_state (fst (sha1_second e a id d)) = WaitingForBegin ->
   exists i j, find_blank d = (true, i) /\ skip_blank (e_asserts e) d i = Some j /\
-    firstn (N.to_nat i) d <> [] /\ e_cookie e id <> [] /\
+    firstn (N.to_nat i) d <> [] /\ e_cookie e (a_nchal a - 1) id <> [] /\
     skipn (N.to_nat j) d =
-      hex_encode (sha1 (a_challenge a ++ colon ++ firstn (N.to_nat i) d ++ colon ++ e_cookie e id)).
+      hex_encode (sha1 (a_challenge a ++ colon ++ firstn (N.to_nat i) d ++ colon ++ e_cookie e (a_nchal a - 1) id)).
 Proof.
   unfold sha1_second. destruct (find_blank d) as [found i]. intros H.
   destruct found; cbn [negb] in H; [|rej_contra H].
@@ -168,12 +168,12 @@ Proof.
   destruct (is_empty (firstn (N.to_nat i) d)) eqn:E1; cbn [orb] in H; [rej_contra H|].
   destruct (is_empty (skipn (N.to_nat j) d)) eqn:E2; [rej_contra H|].
   Transparent sha1_compute_hash. unfold sha1_compute_hash in H.
-  destruct (is_empty (e_cookie e id)) eqn:E3; [cbn [is_empty] in H; rej_contra H|].
+  destruct (is_empty (e_cookie e (a_nchal a - 1) id)) eqn:E3; [cbn [is_empty] in H; rej_contra H|].
   match type of H with context [is_empty (hex_encode ?x)] => destruct (is_empty (hex_encode x)) eqn:E4 end; [rej_contra H|].
   match type of H with context [bytes_eqb ?x ?y] => destruct (bytes_eqb x y) eqn:E5 end; cbn [negb] in H; [|rej_contra H].
   apply bytes_eqb_eq in E5.
   split; [destruct (firstn (N.to_nat i) d); [discriminate|congruence]|].
-  split; [destruct (e_cookie e id); [discriminate|congruence]|]. exact E5.
+  split; [destruct (e_cookie e (a_nchal a - 1) id); [discriminate|congruence]|]. exact E5.
 Qed.
 Opaque sha1_compute_hash.
 
@@ -277,8 +277,8 @@ Definition mech_condition (e : env) (c : core) (m : mech) (d : bytes) : Prop :=
       exists id i j, a_cookie_id c = Some id /\
         (exists k raw, e_challenge e k = Some raw /\ e_best_key e k = Some id /\ a_challenge c = hex_encode raw) /\
         find_blank d = (true, i) /\ skip_blank (e_asserts e) d i = Some j /\
-        firstn (N.to_nat i) d <> [] /\ e_cookie e id <> [] /\
-        skipn (N.to_nat j) d = hex_encode (sha1 (a_challenge c ++ colon ++ firstn (N.to_nat i) d ++ colon ++ e_cookie e id))
+        firstn (N.to_nat i) d <> [] /\ e_cookie e (a_nchal c - 1) id <> [] /\
+        skipn (N.to_nat j) d = hex_encode (sha1 (a_challenge c ++ colon ++ firstn (N.to_nat i) d ++ colon ++ e_cookie e (a_nchal c - 1) id))
   | ANONYMOUS => d = [] \/ validate_utf8 d = Some true
   end.
 
